@@ -49,8 +49,15 @@ where
             source: _,
             buffer,
             bits_read,
+            ..
         } = self;
         (buffer.len(), *bits_read)
+    }
+
+    /// Verification hook: size of the reader object in bytes (see `H263State::verif_object_size`).
+    #[cfg(feature = "verif")]
+    pub fn verif_object_size() -> usize {
+        std::mem::size_of::<Self>()
     }
 
     /// Verification hook: physical layout of the retained ring buffer, `(capacity, length of the
